@@ -573,6 +573,17 @@ func (t *Tr) bitUF(name string, rt types.Type, a, b Term) Term {
 func (t *Tr) convert(x *ssa.Convert) {
 	c := t.c
 	from, to := x.X.Type(), x.Type()
+	if sv, ok := t.vals[x.X]; ok && sv.Loc != nil {
+		// pointer casts through unsafe.Pointer keep denoting the same location
+		_, fp := from.Underlying().(*types.Pointer)
+		_, tp := to.Underlying().(*types.Pointer)
+		fb, fu := from.Underlying().(*types.Basic)
+		tb, tu := to.Underlying().(*types.Basic)
+		if (fp || (fu && fb.Kind() == types.UnsafePointer)) && (tp || (tu && tb.Kind() == types.UnsafePointer)) {
+			t.vals[x] = sv
+			return
+		}
+	}
 	v := t.term(x.X)
 	fs, ts := c.sortOf(from), c.sortOf(to)
 	switch {
